@@ -19,6 +19,7 @@ SUBJECTS = {
     "F20": "reject an unoffered WebSocket subprotocol",
     "F23": "release HTTP/2 senders when the send task stops",
     "F24": "survive a priority tree that schedules a stream",
+    "F25": "keep HTTP/2 senders waiting until the stream buffer",
     "F22": "report the client's close code",
 }
 log = subprocess.run(["git", "-C", "/repo", "log", "--format=%h %s"], capture_output=True, text=True).stdout.splitlines()
